@@ -427,6 +427,7 @@ fn oracle09(flags: ConsensusFlags, max_cost: u64, program: &[u8], refs: &[Vec<u8
     let o = OwnedSpendBundleConditions::from(&a, conds);
     drop(a);
     let mut fails: Vec<String> = vec![];
+    let mut notes: Vec<&str> = vec![];
     // (1) additions_and_removals
     match additions_and_removals(program, refs, flags, &TEST_CONSTANTS) {
         Err(e) => fails.push(format!("additions_and_removals-rejects:{:?}", e.error_code())),
@@ -507,8 +508,17 @@ fn oracle09(flags: ConsensusFlags, max_cost: u64, program: &[u8], refs: &[Vec<u8
                     if flags.to_clvm_flags().is_empty() {
                         let sb = SpendBundle::new(cs.clone(), Signature::default());
                         match sb.additions() {
+                            Err(EvalErr::CostExceeded) => {
+                                // the helper has its own, more conservative budget
+                            }
                             Err(_) => {
-                                // the helper has its own, more conservative budget: only a cost failure is tolerated
+                                // observation F-C09-3: outside NO_UNKNOWN_CONDS a condition whose operator is a pair is
+                                // ignored by validation but makes SpendBundle::additions fail
+                                if flags.contains(ConsensusFlags::NO_UNKNOWN_CONDS) {
+                                    fails.push("spendbundle-additions-fails".into());
+                                } else {
+                                    notes.push("sbadd-fails-outside-no-unknown-conds");
+                                }
                             }
                             Ok(adds) => {
                                 let mut want: Vec<String> = vec![];
@@ -565,7 +575,7 @@ fn oracle09(flags: ConsensusFlags, max_cost: u64, program: &[u8], refs: &[Vec<u8
         }
     }
     if fails.is_empty() {
-        format!("OK accepted spends={}", o.spends.len())
+        format!("OK accepted spends={}{}", o.spends.len(), if notes.is_empty() { "".to_string() } else { format!(" note={}", notes.join(",")) })
     } else {
         format!("FAIL {}", fails.join(" "))
     }
@@ -743,6 +753,27 @@ fn run(name: &str, args: &[String]) -> Option<String> {
             let program = hx(&args[1]);
             let refs = parse_refs(&args[2]);
             Some(trusted_line(flags, &program, &refs))
+        }
+        "gen.rebuild" => {
+            // FLAGS PROGRAM REFS [KEYS TABLE]: solution_generator over the recovered coin spends, reversed and in order
+            let flags = flags_of(&args[0]);
+            let program = hx(&args[1]);
+            let refs = parse_refs(&args[2]);
+            let prog = Program::new(program.to_vec().into());
+            Some(match get_coinspends_for_trusted_block(&TEST_CONSTANTS, &prog, &refs, flags) {
+                Err(_) => "ERR-CS".into(),
+                Ok(cs) => {
+                    fn d<E>(r: Result<Vec<u8>, E>) -> String {
+                        match r {
+                            Ok(b) => digest(&b),
+                            Err(_) => "ERR".to_string(),
+                        }
+                    }
+                    let rev = solution_generator(cs.iter().rev().map(|c| (c.coin, c.puzzle_reveal.as_ref().to_vec(), c.solution.as_ref().to_vec())));
+                    let fwd = solution_generator(cs.iter().map(|c| (c.coin, c.puzzle_reveal.as_ref().to_vec(), c.solution.as_ref().to_vec())));
+                    format!("rev={} fwd={}", d(rev), d(fwd))
+                }
+            })
         }
         "gen.sbadd" => {
             // PROGRAM REFS [TABLE0]: SpendBundle::additions of the coin spends recovered from the block
